@@ -15,6 +15,23 @@ Interpretation notes (see notes/C18.md):
   class `nm`) reports the placeholder family IPv4: for it only the transport is compared.
 * with a UDP mux the UDP listeners are the mux's listen addresses: completeness for UDP is stated
   over them, and the filter / port-range clauses do not apply to borrowed sockets.
+* HOST REWRITE RULES. A host candidate then has two addresses: the one its SOCKET is bound to (printed as
+  the candidate's base when it differs) and the one it PUBLISHES. The clauses of the property are split
+  accordingly: "sits on an interface and address accepted by the filters … with a port inside the range"
+  speaks about the socket; "enabled network type", "never link-local, site-local or IPv4-compatible" and
+  the mDNS clause speak about what is published, whichever rule it came from. A published address that
+  differs from the socket's must be an external address of the configured host rule (the configuration
+  allows nothing else). Completeness ("every eligible interface address yields a host candidate for each
+  enabled transport that has a listener") is read in two parts: (i) for the addresses the rule LEAVES IN
+  PLACE (no rule, append mode, or a replace rule that does not apply to the address: other interface,
+  other pinned local address, no external address of the family) the address itself must be published as
+  before (its port range must have room for every socket the address needs, one per published address); (ii) an address a replace/append rule applies to must yield, per enabled transport with a listener
+  on that address, a candidate for every external address of the rule that may be published at all (not
+  excluded, not link-local, network type of the external address enabled, and — a rule pinned to a local
+  address may cross families — the network type of the socket's own address enabled as well). (ii) does not name the socket:
+  two interface addresses mapped to one external address on one port (TCP mux, single-port range) yield
+  ONE candidate, the second being a duplicate. Which rule applies when (precedence among several rules) is
+  C19's subject; here there is one rule and `ruleExts` restates its documented reach.
 -/
 namespace IceSpec.C18
 open IceModel.Gather
@@ -36,6 +53,43 @@ def onAcceptedIface (cfg : Config) (ifs : List Iface) (a : Addr) : Bool :=
     && i.addrs.contains a
     && (!a.cls.isLoopback || cfg.includeLoopback)
     && (match cfg.ipFilter with | some rej => !rej.contains a | none => true)
+
+/-- external addresses of the host rule -/
+def hostExts (cfg : Config) : List Addr := (cfg.hostRule.map (·.exts)).getD []
+
+/-- does the host rule apply to local address `a` seen on interface `ifc` (`none` = a lookup without
+interface name, as for mux listen addresses)? Restated from the documentation of `AddressRewriteRule`: an
+`Iface` restricts the rule to that interface; with `Local` the rule applies to exactly that address;
+without, it applies to the local addresses of the families of its external addresses. No rewriting in
+mDNS gather mode. -/
+def ruleApplies (cfg : Config) (a : Addr) (ifc : Option Nat) : Bool :=
+  match cfg.hostRule with
+  | none => false
+  | some r =>
+    !cfg.mdnsGather
+    && (match r.iface with | some i => ifc == some i | none => true)
+    && (match r.pin with | some p => p == a | none => r.exts.any (fun e => e.cls.is6 == a.cls.is6))
+
+/-- the external addresses the host rule assigns to `a` (`[]` if it does not apply): all of them for a rule
+with `Local`; otherwise IPv4 externals serve IPv4 locals and IPv6 externals IPv6 locals -/
+def ruleExts (cfg : Config) (a : Addr) (ifc : Option Nat) : List Addr :=
+  if ruleApplies cfg a ifc then
+    match cfg.hostRule with
+    | none => []
+    | some r => if r.pin.isSome then r.exts else r.exts.filter (fun e => e.cls.is6 == a.cls.is6)
+  else []
+
+/-- does the rule take `a` itself away (replace mode and the rule applies; an empty external list then drops
+the address)? -/
+def ruleReplaces (cfg : Config) (a : Addr) (ifc : Option Nat) : Bool :=
+  ((cfg.hostRule.map (·.replace)).getD false) && ruleApplies cfg a ifc
+
+/-- the accepted interfaces carrying `a` -/
+def acceptedIfacesOf (cfg : Config) (ifs : List Iface) (a : Addr) : List Nat :=
+  (ifs.filter fun i =>
+    i.up && (!i.loopback || cfg.includeLoopback)
+    && (match cfg.ifFilter with | some rej => !rej.contains i.name | none => true)
+    && i.addrs.contains a).map (·.name)
 
 def rangeConfigured (cfg : Config) : Bool := cfg.portMin != 0 || cfg.portMax != 0
 
@@ -67,11 +121,19 @@ def candViolation (cfg : Config) (ifs : List Iface) (c : CandD) : Option String 
   else
     match c.ty with
     | .host =>
-      if c.pflag == .M then
+      -- the socket's address: the base when the candidate publishes a rewritten address
+      let sock := c.base.getD c.addr
+      if c.base.isSome && !(hostExts cfg).contains c.addr then
+        some "host candidate publishes an address that is neither its socket's nor an external address of the host rewrite rule"
+      else if c.base.isSome && c.mdns then some "rewritten host candidate in mDNS gather mode"
+      else if c.addr.cls != .nm && c.net.is6 != c.addr.cls.is6 then some "host candidate's network type is not the family of the address it publishes"
+      else if c.pflag == .M then
         (if cfg.udpMux.isSome || cfg.tcpMux.isSome then none else some "mux port without a mux")
       else if c.net.isTCP then some "TCP host candidate without the TCP mux port"
       else if cfg.udpMux.isSome then some "UDP host candidate on an own socket although a UDP mux is configured"
-      else if !onAcceptedIface cfg ifs c.addr then some "host candidate on an interface/address the filters or the loopback setting reject"
+      else if !onAcceptedIface cfg ifs sock then
+        some (if c.base.isSome then "socket of the rewritten host candidate on an interface/address the filters or the loopback setting reject"
+              else "host candidate on an interface/address the filters or the loopback setting reject")
       else if !portOk cfg c.pflag then some "host candidate port outside the configured range"
       else none
     | .srflx =>
@@ -106,23 +168,37 @@ def completeViolation (cfg : Config) (ifs : List Iface) (ownSockets : Nat) (cand
   if !(typesEnabled cfg).contains .host then none else
   let has (p : CandD → Bool) : Bool := cands.any (fun c => c.1.ty == .host && p c.1)
   let addrs := (ifs.flatMap (·.addrs)).filter (eligibleAddr cfg ifs)
-  let udpMissing := addrs.find? fun a =>
-    cfg.udpMux.isNone && netEnabled cfg (NetType.ofTransport false a.cls.is6)
-    && (!rangeConfigured cfg || staticFree cfg a > ownSockets)
-    && !has (fun c => !c.net.isTCP && c.addr == a && c.pflag != .M)
-  let tcpMissing := addrs.find? fun a =>
-    netEnabled cfg (NetType.ofTransport true a.cls.is6)
-    && (match cfg.tcpMux with | none => false | some none => true | some (some m) => m.cls.isUnspecified || m == a)
-    && !has (fun c => c.net.isTCP && c.addr == a && c.pflag == .M)
-  let muxAddrs := (cfg.udpMux.getD []).filter fun a =>
-    netEnabled cfg (NetType.ofTransport false a.cls.is6) && !excludedClass a.cls
+  -- what `a` is to be published as, for transport `tcp`: itself where some accepted interface carrying it
+  -- leaves it in place (i), and every publishable external address the rule assigns to it (ii)
+  let pubs (tcp : Bool) (a : Addr) (ifcs : List (Option Nat)) : List Addr :=
+    ((if ifcs.any (fun i => !ruleReplaces cfg a i) then [a] else [])
+      ++ (ifcs.flatMap (ruleExts cfg a)).filter (fun e => !excludedClass e.cls && !e.cls.isLinkLocal6 && e.cls != .nm)).filter
+      -- the network type of the published address AND the one of the socket's own address are enabled
+      fun e => netEnabled cfg (NetType.ofTransport tcp e.cls.is6) && netEnabled cfg (NetType.ofTransport tcp a.cls.is6)
+  -- sockets `a` needs in one cycle: one per address it is published as (publishable or not)
+  let need (a : Addr) (ifcs : List (Option Nat)) : Nat := ifcs.length + (ifcs.flatMap (ruleExts cfg a)).length
+  let ifcsOf (a : Addr) : List (Option Nat) := (acceptedIfacesOf cfg ifs a).map some
+  let udpMissing := addrs.findSome? fun a =>
+    if cfg.udpMux.isNone && (!rangeConfigured cfg || staticFree cfg a ≥ ownSockets + need a (ifcsOf a)) then
+      ((pubs false a (ifcsOf a)).find? fun e => !has (fun c => !c.net.isTCP && c.addr == e && c.pflag != .M)).map (fun e => (a, e))
+    else none
+  let tcpMissing := addrs.findSome? fun a =>
+    if (match cfg.tcpMux with | none => false | some none => true | some (some m) => m.cls.isUnspecified || m == a) then
+      ((pubs true a (ifcsOf a)).find? fun e => !has (fun c => c.net.isTCP && c.addr == e && c.pflag == .M)).map (fun e => (a, e))
+    else none
+  let muxAddrs := (cfg.udpMux.getD []).filter fun a => !excludedClass a.cls || !(ruleExts cfg a none).isEmpty
   let muxMissing :=
-    if cfg.mdnsGather then (if muxAddrs.isEmpty || has (fun c => c.mdns && c.pflag == .M) then none else muxAddrs.head?)
-    else muxAddrs.find? fun a => !a.cls.isLinkLocal6 && !has (fun c => !c.net.isTCP && c.addr == a && c.pflag == .M)
+    if cfg.mdnsGather then
+      (let l := muxAddrs.filter (fun a => netEnabled cfg (NetType.ofTransport false a.cls.is6) && !excludedClass a.cls)
+       if l.isEmpty || has (fun c => c.mdns && c.pflag == .M) then none else l.head?.map (fun a => (a, a)))
+    else muxAddrs.findSome? fun a =>
+      ((pubs false a [none]).find? fun e => !(e == a && (excludedClass a.cls || a.cls.isLinkLocal6))
+        && !has (fun c => !c.net.isTCP && c.addr == e && c.pflag == .M)).map (fun e => (a, e))
+  let via (p : Addr × Addr) : String := if p.1 == p.2 then p.1.tok else p.1.tok ++ " (to be published as " ++ p.2.tok ++ ")"
   match udpMissing, tcpMissing, muxMissing with
-  | some a, _, _ => some ("eligible interface address without a UDP host candidate: " ++ a.tok)
-  | _, some a, _ => some ("eligible interface address without a TCP host candidate: " ++ a.tok)
-  | _, _, some a => some ("UDP mux listen address without a host candidate: " ++ a.tok)
+  | some p, _, _ => some ("eligible interface address without a UDP host candidate: " ++ via p)
+  | _, some p, _ => some ("eligible interface address without a TCP host candidate: " ++ via p)
+  | _, _, some p => some ("UDP mux listen address without a host candidate: " ++ via p)
   | _, _, _ => none
 
 /-! ### the cycle clauses (stateful: the monitor remembers the previous observation) -/
@@ -152,11 +228,15 @@ def acceptedGather (op r : String) : Bool :=
 /-- cycles never overlap, seen from outside: one cycle opens one socket per (interface address,
 transport), so an address never backs more own-socket host candidates of one network type than there
 are interfaces carrying it; and no two requests with the same key are in flight -/
-def overlapViolation (ifs : List Iface) (o : Obs) : Option String :=
+def overlapViolation (exts : List Addr) (ifs : List Iface) (o : Obs) : Option String :=
   let own := o.cands.filter (fun c => c.1.ty == .host && c.1.pflag != .M && c.1.addr.cls != .nm)
-  match own.find? (fun c => (own.filter (fun d => d.1.net == c.1.net && d.1.addr == c.1.addr)).length
-                              > ((ifs.flatMap (·.addrs)).filter (· == c.1.addr)).length) with
-  | some c => some ("more host candidates on " ++ c.1.addr.tok ++ " than interfaces carrying it (overlapping cycles)")
+  -- with a host rewrite rule: per socket address and published address (a rule may list an external address
+  -- more than once, and may list the local address itself)
+  let sockOf (c : CandO) : Addr := c.1.base.getD c.1.addr
+  match own.find? (fun c => (own.filter (fun d => d.1.net == c.1.net && d.1.addr == c.1.addr && sockOf d == sockOf c)).length
+                              > ((ifs.flatMap (·.addrs)).filter (· == sockOf c)).length
+                                * ((if c.1.base.isNone then 1 else 0) + (exts.filter (· == c.1.addr)).length)) with
+  | some c => some ("more host candidates on " ++ (sockOf c).tok ++ " than interfaces carrying it (overlapping cycles)")
   | none =>
     let keys := o.pend.map (·.2.2)
     if keys.any (fun k => (keys.filter (· == k)).length > 1) then
@@ -214,6 +294,6 @@ def check (cfg : Config) (ifs : List Iface) (m : MonSt) (op r : String) (o : Obs
   -- "yields a host candidate" = published by this gather: listed now or delivered to OnCandidate during the
   -- operation (entering Failed inside the operation removes the candidate from the list again)
   let compl := if acceptedGather op r && o.held == 0 then completeViolation cfg ifs ownSockets (o.cands ++ o.evs) else none
-  (firstSome [sound, compl, overlapViolation ifs o, cycleViolation m op r o], m')
+  (firstSome [sound, compl, overlapViolation (hostExts cfg) ifs o, cycleViolation m op r o], m')
 
 end IceSpec.C18
